@@ -338,6 +338,7 @@ type c12config struct {
 // file under each of these names (a previous execution of the same run into the same output path), which a
 // correct saver replaces completely
 var c12prevFiles map[string][]byte
+var c12saver *scenario.Saver
 
 func c12saveOnce(cfg c12config, fx *c12fixture, memberBits [][]bool, run string, rep int) c12saveObs {
 	dir := filepath.Join(cfg.tmpDir, fmt.Sprintf("out%d", rep))
@@ -350,12 +351,16 @@ func c12saveOnce(cfg c12config, fx *c12fixture, memberBits [][]bool, run string,
 		c12stats["save_over_longer_leftover"]++
 	}
 	obs := c12saveObs{Listing: []string{}, Rows: []c12row{}, Header: []string{}}
-	saver := scenario.NewSaver().
-		WithOutputType(solenc.OutputType(cfg.otype)).
-		WithOutputLevel(scenario.OutputLevel(cfg.level)).
-		WithOutputPath(dir).
-		WithLogHandler(new(loggers.NullLogger))
-	saver.SetDecompressionModel(fx.base)
+	// ONE saver serves every execution of a configuration, as the Runner's single saver serves every run of a
+	// scenario (whatever it remembers from the previous save must not leak into the next one)
+	if c12saver == nil {
+		c12saver = scenario.NewSaver().
+			WithOutputType(solenc.OutputType(cfg.otype)).
+			WithOutputLevel(scenario.OutputLevel(cfg.level)).
+			WithLogHandler(new(loggers.NullLogger))
+		c12saver.SetDecompressionModel(fx.base)
+	}
+	saver := c12saver.WithOutputPath(dir)
 
 	event := observer.NewEvent(observer.FinishedAnnealing)
 	work := fx.base.DeepClone()
@@ -451,6 +456,7 @@ func c12saveCase(cfg c12config, fx *c12fixture, rng *prng) {
 	distinct := map[string]c12saveObs{}
 	var order []string
 	c12prevFiles = nil
+	c12saver = nil
 	for rep := 0; rep < cfg.reps; rep++ {
 		o := c12saveOnce(cfg, fx, memberBits, run, rep)
 		key, _ := encjson.Marshal(o)
